@@ -10,7 +10,9 @@ Props == {"C18", "C15", "C09", "DRIFT"}
 B(x) == IF x THEN 1 ELSE 0
 
 Scn(rec) == [decl |-> rec.decl, popts |-> rec.popts, handler |-> "none", cmdHandler |-> FALSE, execErr |-> FALSE, env |-> <<>>, argv |-> <<>>,
-             completion |-> E, hasPrelude |-> FALSE, prelude |-> <<>>]
+             completion |-> E, prelude |-> <<>>,
+             \* groups added to the parser after an earlier completion of the same words come after the built-in help group
+             hasPrelude |-> ("lateGroup" \in DOMAIN rec /\ rec.lateGroup), lateGroup |-> ("lateGroup" \in DOMAIN rec /\ rec.lateGroup)]
 \* the parser state before any word: the entry step (help options added) already taken
 Start(rec) == Step(S0(Decls[rec.decl], Scn(rec), FTab))
 
